@@ -21,6 +21,8 @@ structure Payload where
   size : Nat
   data : List Nat
   mask : List Bool
+  /-- `CanWaitForCoalesce` (set by the scalar unit on all but the last piece of a split load) -/
+  cwc : Bool := false
 deriving DecidableEq, Repr, Inhabited
 
 /-- an access request at the top port (`mem.ReadReq` / `mem.WriteReq`) -/
@@ -93,7 +95,7 @@ structure FwdLog where
   top : Acc
   breq : BReq
   epoch : Nat
-deriving Repr
+deriving Repr, DecidableEq
 
 /-- ghost record of one answered access -/
 structure AnsLog where
@@ -101,7 +103,7 @@ structure AnsLog where
   bid : Nat
   rsp : URsp
   epoch : Nat
-deriving Repr
+deriving Repr, DecidableEq
 
 structure St where
   txs : List Tx := []
@@ -137,16 +139,20 @@ structure St where
   mdel : List BRsp := []
   /-- ghost: trace events, newest first -/
   ev : List String := []
+  /-- ghost: number of successful control-port sends (acknowledgements) -/
+  acks : Nat := 0
+  /-- ghost: control commands taken from the control port, newest first -/
+  taken : List Ctl := []
 deriving Repr
 
 /-- `addrToPageID` -/
 def pageId (lg a : Nat) : Nat := (a >>> lg) <<< lg
 
 def plSig (p : Payload) : String :=
-  if p.isWrite then
+  (if p.isWrite then
     "w" ++ bytesHex p.data ++ "/" ++
       (if p.mask.isEmpty then "-" else String.ofList (p.mask.map fun b => if b then '1' else '0'))
-  else s!"r{p.size}"
+  else s!"r{p.size}") ++ (if p.cwc then "c" else "")
 
 def dataSig : Option (List Nat) → String
   | some d => "d" ++ bytesHex d
@@ -266,7 +272,8 @@ def handleCtrl (s : St) : St × Bool :=
   | .flush :: rest =>
     if s.ctlOut < 1 then
       ({ s with ctlOut := s.ctlOut + 1, ctlIn := rest, txs := [], infl := [], flushing := true,
-                epoch := s.epoch + 1, ev := "C" :: "K" :: s.ev }, true)
+                epoch := s.epoch + 1, ev := "C" :: "K" :: s.ev,
+                acks := s.acks + 1, taken := .flush :: s.taken }, true)
     else (s, false)
   | .restart :: rest =>
     if s.ctlOut < 1 then
@@ -274,7 +281,8 @@ def handleCtrl (s : St) : St × Bool :=
                 flushing := false,
                 ev := "C" :: ((s.trIn.map fun r => s!"X{r.rspTo}").reverse ++
                       (s.botIn.map fun r => s!"Y{r.rspTo}").reverse ++
-                      (s.topIn.map fun a => s!"A{a.id}").reverse ++ "K" :: s.ev) }, true)
+                      (s.topIn.map fun a => s!"A{a.id}").reverse ++ "K" :: s.ev),
+                acks := s.acks + 1, taken := .restart :: s.taken }, true)
     else (s, false)
   | .bad :: _ => ({ s with fault := some "never" }, false)
 
@@ -361,6 +369,8 @@ inductive WOp
   | ansM (j : Nat)
   | dupT (j : Nat)
   | dupM (j : Nat)
+  /-- an untruthful translation service: the j-th outstanding lookup is answered with `paddr` -/
+  | lieT (j : Nat) (paddr : Nat)
   | drainTop (k : Nat)
   | drainBot (k : Nat)
   | drainTr (k : Nat)
@@ -421,6 +431,16 @@ def wstep (c : Cfg) (salt : Nat) (w : World) : WOp → World × String
       if w.s.botIn.length < c.width then
         ({ w with s := step c w.s (.brsp (memAnswer b)),
                   envM := removeNth i w.envM, oldM := w.oldM ++ [b] }, s!"ok{b.bid}")
+      else (w, "full")
+  | .lieT j pa =>
+    match w.envT with
+    | [] => (w, "none")
+    | q0 :: _ =>
+      let i := j % w.envT.length
+      let q := w.envT.getD i q0
+      if w.s.trIn.length < c.width then
+        ({ w with s := step c w.s (.trsp ⟨q.tid, pa⟩),
+                  envT := removeNth i w.envT, oldT := w.oldT ++ [q] }, s!"ok{q.tid}")
       else (w, "full")
   | .dupT j =>
     match w.oldT with
@@ -489,6 +509,10 @@ structure CW where
   staleT : List TReq := []
   /-- ghost: requests forwarded before the last flush -/
   staleM : List FwdLog := []
+  /-- ghost: control commands the controller delivered successfully, newest first -/
+  sentCtl : List Ctl := []
+  /-- ghost: acknowledgements the controller took from the control port -/
+  ackSeen : Nat := 0
 
 inductive HOp
   | access (pid vaddr : Nat) (pl : Payload)
@@ -560,13 +584,16 @@ def hstep (c : Cfg) (e : Env) (w : CW) : HOp → CW
                          awake := w.awake || decide (w.s.trOut.length = c.width) }
   | .drainCtl =>
     if 0 < w.s.ctlOut then
-      { w with s := step c w.s .drainCtl, awake := w.awake || decide (w.s.ctlOut = 1) }
+      { w with s := step c w.s .drainCtl, awake := w.awake || decide (w.s.ctlOut = 1),
+               ackSeen := w.ackSeen + 1 }
     else w
   | .flush =>
-    { w with s := step c w.s (.ctl .flush), awake := w.awake || w.s.ctlIn.isEmpty }
+    { w with s := step c w.s (.ctl .flush), awake := w.awake || w.s.ctlIn.isEmpty,
+             sentCtl := if w.s.ctlIn.length < 1 then .flush :: w.sentCtl else w.sentCtl }
   | .restart =>
     if w.s.flushing then
-      { w with s := step c w.s (.ctl .restart), awake := w.awake || w.s.ctlIn.isEmpty }
+      { w with s := step c w.s (.ctl .restart), awake := w.awake || w.s.ctlIn.isEmpty,
+               sentCtl := if w.s.ctlIn.length < 1 then .restart :: w.sentCtl else w.sentCtl }
     else w
 
 def hrun (c : Cfg) (e : Env) (w : CW) (os : List HOp) : CW := os.foldl (hstep c e) w
@@ -590,10 +617,19 @@ def parseOp (t : List String) : Option (List WOp) :=
   match t with
   | ["a", pid, va, "r", sz] => do
       let p ← pid.toNat?; let v ← hexNat? va; let n ← sz.toNat?
-      pure [.core (.access p v ⟨false, n, [], []⟩)]
+      pure [.core (.access p v ⟨false, n, [], [], false⟩)]
   | ["a", pid, va, "w", d, m] => do
       let p ← pid.toNat?; let v ← hexNat? va; let bs ← hexBytes? d; let mk ← parseMask m
-      pure [.core (.access p v ⟨true, bs.length, bs, mk⟩)]
+      pure [.core (.access p v ⟨true, bs.length, bs, mk, false⟩)]
+  | ["a", pid, va, "r", sz, "c"] => do
+      let p ← pid.toNat?; let v ← hexNat? va; let n ← sz.toNat?
+      pure [.core (.access p v ⟨false, n, [], [], true⟩)]
+  | ["a", pid, va, "w", d, m, "c"] => do
+      let p ← pid.toNat?; let v ← hexNat? va; let bs ← hexBytes? d; let mk ← parseMask m
+      pure [.core (.access p v ⟨true, bs.length, bs, mk, true⟩)]
+  | ["xl", j, pa] => do
+      let j ← j.toNat?; let p ← hexNat? pa
+      pure [.lieT j p]
   | ["t"] => some [.core .tick]
   | ["xt", j] => j.toNat?.map fun j => [.ansT j]
   | ["xm", j] => j.toNat?.map fun j => [.ansM j]
@@ -644,10 +680,16 @@ def parseHOp (t : List String) : Option (List HOp) :=
   match t with
   | ["a", pid, va, "r", sz] => do
       let p ← pid.toNat?; let v ← hexNat? va; let n ← sz.toNat?
-      pure [.access p v ⟨false, n, [], []⟩]
+      pure [.access p v ⟨false, n, [], [], false⟩]
   | ["a", pid, va, "w", d, m] => do
       let p ← pid.toNat?; let v ← hexNat? va; let bs ← hexBytes? d; let mk ← parseMask m
-      pure [.access p v ⟨true, bs.length, bs, mk⟩]
+      pure [.access p v ⟨true, bs.length, bs, mk, false⟩]
+  | ["a", pid, va, "r", sz, "c"] => do
+      let p ← pid.toNat?; let v ← hexNat? va; let n ← sz.toNat?
+      pure [.access p v ⟨false, n, [], [], true⟩]
+  | ["a", pid, va, "w", d, m, "c"] => do
+      let p ← pid.toNat?; let v ← hexNat? va; let bs ← hexBytes? d; let mk ← parseMask m
+      pure [.access p v ⟨true, bs.length, bs, mk, true⟩]
   | ["t"] => some [.tick]
   | ["xt", j] => j.toNat?.map fun j => [.ansT j]
   | ["xm", j] => j.toNat?.map fun j => [.ansM j]
